@@ -23,6 +23,22 @@ def shapes(backend_open):
     return ops
 
 
+def edge_values(open_line):
+    """empty and one-byte values of every type, evicted (three eviction passes), read back, closed,
+    reopened and read back again: a value that is empty must stay empty (not absent, not null)"""
+    from gen_api import hx
+    e = "-"
+    ops = [open_line,
+           f"api Set 7330 {e} 0", f"api Set 7331 00 0", f"api Set 7332 0d0a 0", f"api Append 7333 {e}", f"api SetRange 7334 0 {e}",
+           f"api RPush 6c30 {e}", f"api RPush 6c31 {e} {e} 00", f"api HSet 6830 {e} {e}", f"api HSet 6831 66 {e}", f"api HSet 6832 {e} 76",
+           f"api SAdd 7430 {e}", f"api SAdd 7431 {e} 00", f"api ZAdd 7a30 {e} 0000000000000000", f"api ZAdd 7a31 {e} 8000000000000000"]
+    reads = ["api Get 7330", "api Get 7331", "api Get 7332", "api Get 7333", "api Get 7334", "api StrLen 7330", "api Exists 7330 7333 7334", "api GetSet 7330 -",
+             "api Append 7330 -", "api Get 7330", "api LRange 6c30 0 -1", "api LRange 6c31 0 -1", "api HGetAll 6830", "api HGet 6831 66", "api HGet 6832 -", "api HStrLen 6831 66",
+             "api SMembers 7430", "api SMembers 7431", "api SIsMember 7430 -", "api ZScore 7a30 -", "api ZRangeWithScores 7a31 0 -1", "api Type 7330", "dump"]
+    ops += reads + ["gc", "gc", "gc"] + reads + ["ldump", "close", "reopen", "ldump"] + reads + ["gc", "gc", "gc"] + reads
+    return ops
+
+
 def run(ctx, proofs_ok):
     import shutil
     pdir = f"{ctx.work}/pebble-shapes"
@@ -35,5 +51,8 @@ def run(ctx, proofs_ok):
         {"label": "all families with frequent close/reopen cycles (Pebble directory)",
          "fams": ["exp", "str", "key", "list", "hash", "set", "zset"], "n": (1200, 4000), "count": (2, 12), "backend": "pebble", "events": ev},
     ], extra=[("key names of length 0..12 and element sizes around every prefix boundary, 3 reopen cycles (memory)", shapes("open a mem"), False),
-              ("the same on Pebble", shapes(f"open a pebble {pdir}"), False)])
+              ("the same on Pebble", shapes(f"open a pebble {pdir}"), False),
+              ("empty and one-byte values of every type through eviction, reload and reopen (memory)", edge_values("open a mem"), False),
+              ("empty and one-byte values of every type through eviction, reload and reopen (Pebble)", edge_values(f"open a pebble {pdir}-edge"), False)])
+    shutil.rmtree(pdir + "-edge", ignore_errors=True)
     shutil.rmtree(pdir, ignore_errors=True)
